@@ -3,13 +3,19 @@
    (driver harness/drive/c19) against the oracle ReceiverConcOps.  Events (one per line):
      note  {...}                                   information for the evidence file, no clause
      hdr   {sc, kind, nch, ntr, auth, repcfg, ..}  new scenario: fresh receiver, empty storage
-     ref   {ch, order, files, hasmpd, mpd}         outcome for channel ch of the SAME uploads made one after the
-                                                   other (order fwd / rev) on a fresh receiver (real code)
+     ref   {ch, order, indep, files, hasmpd, mpd, hastl, tl}
+                                                   outcome for channel ch of the SAME uploads made one after the other
+                                                   (each processed completely before the next) on a fresh receiver (real
+                                                   code); indep: the oracle assumes these orders give the same outcome
      chan_created {ch}                             hook in newChannel: one per channel OBJECT
      up    {ch, tr, seg, k, status, body, stored}  answer to an upload (seg = init | media, k = -1 | 0..2) and the
                                                    driver's own look at <storage>/<ch>/<tr>/ (bytes equal)
-     process {ch, tr, k, complete, known}          hook in the channel goroutine after it handled a segment
-     final {ch, files, hasmpd, mpd, objects}       storage and manifest.mpd of channel ch after quiescence
+     process {ch, tr, k, n, complete, known}       hook in the channel goroutine after it handled a segment (k: outgoing
+                                                   number, n: serial number of the event)
+     final {ch, files, hasmpd, mpd, hastl, tl, objects, own, newest}
+                                                   storage, manifest.mpd and timeline MPD of channel ch after quiescence
+     mpdcheck {ch, round, hasmpd, ids, hastl, tl, own, needmpd, needtl, newest}
+                                                   the MPDs of channel ch after a round of uploads has been processed
      end   {quiesced, mediaok}                     end of scenario
      race  {site}                                  Go race detector report / runtime "concurrent map" fatal
                                                    error of the child (no action of the specification allows it) *)
@@ -30,10 +36,10 @@ Hdr == /\ e.ev = "hdr"
        /\ created' = {} /\ initOK' = {} /\ mediaOK' = {} /\ processed' = {} /\ refs' = {}
 
 Ref == /\ e.ev = "ref"
-       /\ LET o == Outcome(e.files, e.hasmpd, e.mpd) IN
+       /\ LET o == Outcome(e.files, e.hasmpd, e.mpd, e.hastl, e.tl) IN
           \* the oracle's own assumption (a machinery problem when false, never a verdict): for these uploads
           \* the sequential outcome does not depend on the order, modulo the renaming defined by NormMPD
-          /\ Clause("M.ref_order_independent", RefsOf(e.ch) \subseteq {o}, <<e.ch, e.order>>)
+          /\ Clause("M.ref_order_independent", e.indep => RefsOf(e.ch) \subseteq {o}, <<e.ch, e.order>>)
           /\ refs' = refs \cup {<<e.ch, o>>}
        /\ UNCHANGED <<created, initOK, mediaOK, processed>>
 
@@ -54,18 +60,29 @@ Up == /\ e.ev = "up"
       /\ UNCHANGED <<created, processed, refs>>
 
 Process == /\ e.ev = "process"
-           /\ processed' = IF e.complete /\ e.known THEN processed \cup {<<e.ch, e.tr, e.k>>} ELSE processed
+           /\ processed' = IF e.complete /\ e.known THEN processed \cup {<<e.ch, e.tr, e.n>>} ELSE processed
            /\ UNCHANGED <<created, initOK, mediaOK, refs>>
 
+MpdIds(m) == UNION {{m[i].reps[j].id : j \in DOMAIN m[i].reps} : i \in DOMAIN m}
+
 Final == /\ e.ev = "final"
-         /\ LET o == Outcome(e.files, e.hasmpd, e.mpd) IN
+         /\ LET o == Outcome(e.files, e.hasmpd, e.mpd, e.hastl, e.tl) IN
             Clause("C19.linearizable", Linearizable(o, RefsOf(e.ch)),
                    [files_equal |-> FilesEqualSome(o, RefsOf(e.ch)), mpd_equal |-> MPDEqualSome(o, RefsOf(e.ch)),
-                    nas |-> o.nas, nreps |-> o.nrepsRaw])
+                    tl_equal |-> TLEqualSome(o, RefsOf(e.ch)), nas |-> o.nas, nreps |-> o.nrepsRaw])
+         /\ Clause("C19.isolated",
+                   Isolated(TRUE, e.hasmpd, MpdIds(e.mpd), TRUE, e.hastl, e.tl, Range(e.own), e.newest),
+                   [hasmpd |-> e.hasmpd, hastl |-> e.hastl, tl |-> e.tl, newest |-> e.newest])
          /\ UNCHANGED <<created, initOK, mediaOK, processed, refs>>
 
+MpdCheck == /\ e.ev = "mpdcheck"
+            /\ Clause("C19.isolated",
+                      Isolated(e.needmpd, e.hasmpd, Range(e.ids), e.needtl, e.hastl, e.tl, Range(e.own), e.newest),
+                      [round |-> e.round, hasmpd |-> e.hasmpd, ids |-> e.ids, hastl |-> e.hastl, tl |-> e.tl, newest |-> e.newest])
+            /\ UNCHANGED <<created, initOK, mediaOK, processed, refs>>
+
 End == /\ e.ev = "end"
-       /\ Clause("C19.registered", ProcessedOK(mediaOK, processed), [unprocessed |-> Cardinality(mediaOK \ processed), quiesced |-> e.quiesced])
+       /\ Clause("C19.registered", ProcessedOK(mediaOK, processed), [unprocessed |-> Cardinality(Unprocessed(mediaOK, processed)), quiesced |-> e.quiesced])
        /\ UNCHANGED <<created, initOK, mediaOK, processed, refs>>
 
 Race == /\ e.ev = "race"
@@ -73,7 +90,7 @@ Race == /\ e.ev = "race"
         /\ UNCHANGED <<created, initOK, mediaOK, processed, refs>>
 
 Step == /\ l <= Len(Trace)
-        /\ (Note \/ Hdr \/ Ref \/ ChanCreated \/ Up \/ Process \/ Final \/ End \/ Race)
+        /\ (Note \/ Hdr \/ Ref \/ ChanCreated \/ Up \/ Process \/ Final \/ MpdCheck \/ End \/ Race)
         /\ l' = l + 1
 Done == l = Len(Trace) + 1 /\ Consumed(Len(Trace)) /\ UNCHANGED vars
 Spec == Init /\ [][Step \/ Done]_vars
